@@ -118,6 +118,8 @@ pub enum Event {
     ApplyRelease(u32),
     /// advance the virtual clock
     Advance(u64),
+    /// the next apply_chunk on node n fails (state machine error -> fatal)
+    FailApply(u32),
     /// timed mode: virtual time jumps to the earliest timer deadline of a live node and that
     /// node takes its turn (its tick fires)
     Tick,
@@ -718,8 +720,22 @@ impl Cluster {
                     if progressed && self.armed_timers.remove(&id) {
                         node.raft.verif_expire_timer();
                     }
+                    let fatal_now = node.fatal;
                     self.slots.insert(id, Slot::Up(node));
                     self.after_turn(id).await;
+                    if fatal_now && self.opts.timed {
+                        // Raft::run returned the error: Node::run ends and the process goes
+                        // away - every channel of the node closes
+                        if let Some(node) = self.take(id) {
+                            let image = node.crash(CrashMode::Process);
+                            self.slots.insert(id, Slot::Down(image));
+                            self.on_node_gone(id);
+                            quiesce().await;
+                            self.collect_responses();
+                            self.collect_clients();
+                        }
+                        return Ok(true);
+                    }
                     if !progressed {
                         return Ok(true);
                     }
@@ -1296,6 +1312,10 @@ impl Cluster {
                 for id in self.up_ids() {
                     self.settle(id).await?;
                 }
+            }
+            Event::FailApply(id) => {
+                let n = self.node(*id).ok_or("node not up")?;
+                n.sm.fail_next_apply.store(true, Ordering::SeqCst);
             }
             Event::Tick => {
                 if self.election.is_some() {
